@@ -59,6 +59,7 @@ def render_job(job) -> Tuple[List[Dict[str, Any]], List[Dict[str, Any]]]:
     tid0, layouts, sd, workdir = job
     evs: List[Dict[str, Any]] = []
     bad: List[Dict[str, Any]] = []
+    shared_parser = PbnParser()       # one parser object reads many files
     for li, lay in enumerate(layouts):
         tid = f'{tid0}.{li}'
         r = rng('pbn', sd, tid)
@@ -114,8 +115,11 @@ def render_job(job) -> Tuple[List[Dict[str, Any]], List[Dict[str, Any]]]:
         games = None
         try:
             with source() as fp:
-                games = PbnParser().parse_all(fp)
+                # every other file is read by a parser object that has read
+                # other files before
+                games = (shared_parser if li % 2 else PbnParser()).parse_all(fp)
             e['out'] = [[[k, v] for k, v in g.items()] for g in games]
+            e['reused_parser'] = bool(li % 2)
         except Exception as ex:  # noqa
             e['raised'] = True
             e['msg'] = f'{type(ex).__name__}: {ex}'[:120]
